@@ -17,7 +17,7 @@ open Model.Chars Model.Lexer Spec.Lexical
 theorem C01_lex_value_loop (dia : Dialect) (p : Presentation) (s ctx : Str) (line col fuel : Nat) (pol : Policy)
     (log : List Report)
     (hadm : admissible dia p s = true) (hfit : linesFit col (renderValue p s) = true)
-    (hstart : startOk p s col = true) (hctx : followOkP dia p ctx = true) :
+    (hstart : startOk p s col = true) (hctx : followOk dia ctx = true) :
     tokLoop dia (fuel + 1) true ⟨renderValue p s ++ ctx, line, col⟩ pol log
       = .ok (⟨p.tokType, s, (posAfter line col (renderValue p s)).1, (posAfter line col (renderValue p s)).2⟩,
              ⟨ctx, (posAfter line col (renderValue p s)).1, (posAfter line col (renderValue p s)).2⟩) log := by
@@ -92,36 +92,49 @@ theorem C01_lex_value_loop (dia : Dialect) (p : Presentation) (s ctx : Str) (lin
     rw [e]
     exact tokLoop_tok (stepTok_text dia s ctx line pol log hadm hfit' hctx)
   | bare =>
-    have hctx' : ctx = [] ∨ ∃ d r, ctx = d :: r ∧ isWs d = true := by
-      cases ctx with
-      | nil => exact Or.inl rfl
-      | cons d r => exact Or.inr ⟨d, r, rfl, by simpa [followOkP] using hctx⟩
-    obtain ⟨c, r, hs, hstep⟩ := stepTok_bare dia s ctx line col pol log hadm (by simpa [startOk] using hstart) hctx'
     have hne : s.all (fun x => !isEol x) = true := by
       simp only [admissible, bareOk] at hadm
-      subst hs
-      simp only [Bool.and_eq_true] at hadm
-      have h := hadm.1.1.1.2
-      rw [List.all_eq_true] at h ⊢
-      intro x hx
-      have := h x hx
-      simp only [isWs, Bool.not_eq_true', Bool.or_eq_false_iff] at this
-      simp [this.2]
+      cases s with
+      | nil => simp at hadm
+      | cons c r =>
+        simp only [Bool.and_eq_true] at hadm
+        have h := hadm.1.1.1.2
+        rw [List.all_eq_true] at h ⊢
+        intro x hx
+        have := h x hx
+        simp only [isWs, Bool.not_eq_true', Bool.or_eq_false_iff] at this
+        simp [this.2]
     simp only [renderValue, Presentation.tokType]
     rw [posAfter_noeol s hne]
-    subst hs
-    exact tokLoop_tok hstep
+    -- what follows: nothing, whitespace, or (CIF 2.0) a closing bracket
+    have hcases : (ctx = [] ∨ ∃ d r, ctx = d :: r ∧ isWs d = true) ∨ (dia = .cif2 ∧ ∃ d r, ctx = d :: r ∧ (d = 93 ∨ d = 125)) := by
+      cases ctx with
+      | nil => exact Or.inl (Or.inl rfl)
+      | cons d r =>
+        simp only [followOk, Bool.or_eq_true, Bool.and_eq_true, beq_iff_eq] at hctx
+        rcases hctx with h | ⟨hd, h⟩
+        · exact Or.inl (Or.inr ⟨d, r, rfl, h⟩)
+        · exact Or.inr ⟨hd, d, r, rfl, h⟩
+    rcases hcases with hws | ⟨hd, d, r, hc, hbr⟩
+    · obtain ⟨c, r, hs, hstep⟩ := stepTok_bare dia s ctx line col pol log hadm (by simpa [startOk] using hstart) hws
+      subst hs
+      exact tokLoop_tok hstep
+    · subst hc
+      obtain ⟨c, r', hs, hstep⟩ := stepTok_bare_close dia hd s d hbr r line col pol log hadm (by simpa [startOk] using hstart)
+      subst hs
+      exact tokLoop_tok hstep
 
 /-- **C01_lex_value** (next_token level).  For every dialect, every string `s`, every admissible presentation `p` of `s`,
     every context `ctx` that may follow it, from every scanner state in which a token may start without whitespace
-    (`afterWsOf lt`; `C01_lex_value_after_ws` covers the other states): next_token yields a token of the presentation's
+    (`afterWsOf lt`; `C01_lex_value_after_ws` covers the other states; a following closing bracket or brace is allowed after
+    every presentation in CIF 2.0, the whitespace-delimited one included): next_token yields a token of the presentation's
     type whose value text is `s` (text field: the raw body), consumes exactly the presentation, leaves line/column where
     the specification puts them, and reports nothing — whatever the callback policy.  (`hfit`: no line that ends inside
     the presentation is longer than 2048 characters — otherwise CIF_OVERLENGTH_LINE is due, see `C01_overlength_iff`.) -/
 theorem C01_lex_value (dia : Dialect) (p : Presentation) (s ctx : Str) (line col : Nat) (lt : TokType) (pol : Policy)
     (log : List Report) (haw : afterWsOf lt = true)
     (hadm : admissible dia p s = true) (hfit : linesFit col (renderValue p s) = true)
-    (hstart : startOk p s col = true) (hctx : followOkP dia p ctx = true) :
+    (hstart : startOk p s col = true) (hctx : followOk dia ctx = true) :
     nextToken dia ⟨renderValue p s ++ ctx, line, col, lt⟩ pol log
       = .ok (⟨p.tokType, s, (posAfter line col (renderValue p s)).1, (posAfter line col (renderValue p s)).2⟩,
              ⟨ctx, (posAfter line col (renderValue p s)).1, (posAfter line col (renderValue p s)).2, p.tokType⟩) log := by
@@ -153,7 +166,7 @@ theorem C01_lex_value_after_ws (dia : Dialect) (w : List WsAtom) (p : Presentati
     (hfitw : linesFit col (renderWs w) = true)
     (hadm : admissible dia p s = true)
     (hfit : linesFit (posAfter line col (renderWs w)).2 (renderValue p s) = true)
-    (hstart : startOk p s (posAfter line col (renderWs w)).2 = true) (hctx : followOkP dia p ctx = true) :
+    (hstart : startOk p s (posAfter line col (renderWs w)).2 = true) (hctx : followOk dia ctx = true) :
     nextToken dia ⟨renderWs w ++ (renderValue p s ++ ctx), line, col, lt⟩ pol log
       = .ok (⟨p.tokType, s, (posAfter line col (renderWs w ++ renderValue p s)).1, (posAfter line col (renderWs w ++ renderValue p s)).2⟩,
              ⟨ctx, (posAfter line col (renderWs w ++ renderValue p s)).1, (posAfter line col (renderWs w ++ renderValue p s)).2, p.tokType⟩) log := by
@@ -176,7 +189,7 @@ theorem C08_ws_lengthening_lexical (dia : Dialect) (w₁ w₂ : List WsAtom) (p 
     (hfit₂ : linesFit (posAfter line col (renderWs w₂)).2 (renderValue p s) = true)
     (hstart₁ : startOk p s (posAfter line col (renderWs w₁)).2 = true)
     (hstart₂ : startOk p s (posAfter line col (renderWs w₂)).2 = true)
-    (hctx : followOkP dia p ctx = true) :
+    (hctx : followOk dia ctx = true) :
     ∃ t₁ s₁ t₂ s₂,
       nextToken dia ⟨renderWs w₁ ++ (renderValue p s ++ ctx), line, col, lt⟩ pol log = .ok (t₁, s₁) log
       ∧ nextToken dia ⟨renderWs w₂ ++ (renderValue p s ++ ctx), line, col, lt⟩ pol log = .ok (t₂, s₂) log
@@ -292,43 +305,6 @@ theorem C01_lex_keyword (dia : Dialect) (a b c d e : Nat) (code ctx : Str) (line
     have := stepTok_loop dia a b c d e ctx hw (wsOrEnd_iff hctx) line col pol log
     exact stepTok_tok_nextToken (by rw [haw]; exact this)
 
-/-- FULL statement for a whitespace-delimited value directly followed by a closing bracket or brace (CIF 2.0): it ends
-    before the bracket.  This is what the CIF 2.0 grammar demands; it is FALSE of the current scanner (open finding F33,
-    `C01_cex_semicolon_keyword_bracket`), true with the extra hypothesis of `C01_lex_value_bare_close_partial`. -/
-def C01_lex_value_bare_close_full : Prop :=
-  ∀ (s : Str) (d : Nat) (rest : Str) (line col : Nat) (lt : TokType) (pol : Policy) (log : List Report),
-    (d = 93 ∨ d = 125) → afterWsOf lt = true → admissible .cif2 .bare s = true → startOk .bare s col = true →
-    nextToken .cif2 ⟨s ++ d :: rest, line, col, lt⟩ pol log
-      = .ok (⟨.value, s, line, col + colAdd s⟩, ⟨d :: rest, line, col + colAdd s, .value⟩) log
-
-/-- **C01_lex_value_bare_close_partial** — the bare presentation directly followed by `]` or `}` (CIF 2.0), for every
-    admissible string EXCEPT those of the shape `;data_…` / `;save_…` (hypothesis `semiKwFree`; missing part = open
-    finding F33: there the current scanner swallows the bracket). -/
-theorem C01_lex_value_bare_close_partial (s : Str) (d : Nat) (rest : Str) (line col : Nat) (lt : TokType) (pol : Policy)
-    (log : List Report) (hd : d = 93 ∨ d = 125) (haw : afterWsOf lt = true)
-    (hadm : admissible .cif2 .bare s = true) (hstart : startOk .bare s col = true) (hkw : semiKwFree s = true) :
-    nextToken .cif2 ⟨s ++ d :: rest, line, col, lt⟩ pol log
-      = .ok (⟨.value, s, line, col + colAdd s⟩, ⟨d :: rest, line, col + colAdd s, .value⟩) log := by
-  obtain ⟨c, r, hs, hstep⟩ := stepTok_bare_close .cif2 rfl s d hd rest line col pol log hadm (by simpa [startOk] using hstart) hkw
-  subst hs
-  exact stepTok_tok_nextToken (by rw [haw]; exact hstep)
-
-/-- the counterexample behind F33, on the model of the current code: after `[ `, the input `;data_x]` is one VALUE token
-    `;data_x]` — the list is never closed. -/
-theorem C01_cex_semicolon_keyword_bracket :
-    admissible .cif2 .bare (a!";data_x") = true ∧ startOk .bare (a!";data_x") 2 = true
-    ∧ (tokenize .cif2 (a!"[ ;data_x]")).1.map (fun t => (t.ty, t.text))
-        = [(.olist, (a!"[")), (.value, (a!";data_x]")), (.end_, [])]
-    ∧ ¬ C01_lex_value_bare_close_full := by
-  refine ⟨by decide, by decide, by decide +kernel, ?_⟩
-  intro h
-  have := h (a!";data_x") 93 [] 1 2 .olist acceptAll [] (Or.inl rfl) rfl (by decide) (by decide)
-  have key : (match nextToken .cif2 ⟨(a!";data_x") ++ [93], 1, 2, .olist⟩ acceptAll [] with
-      | .ok (t, _) _ => t.text | .abort _ _ => []) = (a!";data_x]") := by decide +kernel
-  rw [this] at key
-  revert key
-  decide
-
 /-- **C01_lex_total** — totality of the scanner model.
     (1) fuel suffices: with more fuel than remaining units the loop's answer does not depend on the fuel (so `nextToken`,
         which passes `length + 1`, is the least fixed point of the C loop);
@@ -402,7 +378,7 @@ theorem C01_overlength_iff (dia : Dialect) (input : Str) (hcr : noCR input) :
 example : admissible .cif2 .squote [97, 0xD83D, 0xDE00] = true := by decide
 example : admissible .cif2 .tdquote [97, 10, 0xD83D, 0xDE00] = true := by decide
 example : admissible .cif2 .text [0xD83D, 0xDE00] = true := by decide
-example : admissible .cif2 .bare [97, 0xD83D, 0xDE00] = true ∧ followOkP .cif2 .bare [32] = true := by decide
+example : admissible .cif2 .bare [97, 0xD83D, 0xDE00] = true ∧ followOk .cif2 [93] = true := by decide
 -- … and what C01_lex_value then says about it:  'a😀' directly followed by a closing bracket, right after `[`
 example : ∃ l c, nextToken .cif2 ⟨renderValue .squote [97, 0xD83D, 0xDE00] ++ [93], 1, 1, .olist⟩ acceptAll []
     = .ok (⟨.qvalue, [97, 0xD83D, 0xDE00], l, c⟩, ⟨[93], l, c, .qvalue⟩) [] :=
@@ -425,8 +401,11 @@ example : admissible .cif2 .bare (a!"data_x") = false ∧ admissible .cif2 .bare
     ∧ admissible .cif2 .bare (a!"loop_x") = true := by decide
 example : startOk .text (a!"x") 0 = true ∧ startOk .text (a!"x") 3 = false ∧ startOk .bare (a!";x") 0 = false := by decide
 -- names, keywords, brackets; a bare value before a closing bracket
-example : nonBlankOk .cif2 (a!"atom_site[1].x") = true ∧ wsOrEnd [10] = true ∧ semiKwFree (a!";ab") = true
-    ∧ semiKwFree (a!"data") = true ∧ semiKwFree (a!";SAVE_f") = false := by decide
+example : nonBlankOk .cif2 (a!"atom_site[1].x") = true ∧ wsOrEnd [10] = true := by decide
+-- since /repo a4a1f62 also the value `;data_x` directly before a closing bracket (F33): instance of C01_lex_value
+example : ∃ l c, nextToken .cif2 ⟨renderValue .bare (a!";data_x") ++ [93], 1, 2, .olist⟩ acceptAll []
+    = .ok (⟨.value, (a!";data_x"), l, c⟩, ⟨[93], l, c, .value⟩) [] :=
+  ⟨_, _, C01_lex_value .cif2 .bare (a!";data_x") [93] 1 2 .olist acceptAll [] rfl (by decide) (by decide) (by decide) (by decide)⟩
 example : lowerAscii 68 = 100 ∧ lowerAscii 97 = 97 ∧ lowerAscii 84 = 116 := by decide
 -- whitespace atoms, and an over-long line making `linesFit` fail
 example : (WsAtom.comment (a!"c d")).ok .cif2 = true ∧ renderWs [.blank 32, .comment (a!"c"), .eol] = (a!" #c") ++ [10, 10] := by decide
